@@ -1,0 +1,86 @@
+//go:build verif
+
+// Read-only accessor for the runtime monitor of property C15 (/verif). It does
+// not exist without the build tag and is never called by the node itself.
+
+package core
+
+import (
+	"math/big"
+	"sort"
+
+	"gitlab.com/aquachain/aquachain/common"
+	"gitlab.com/aquachain/aquachain/core/types"
+)
+
+// VerifPoolAccount is what the pool believes about one account.
+type VerifPoolAccount struct {
+	StateNonce   uint64   // nonce in pool.currentState (the head the pool has processed)
+	StateBalance *big.Int // balance in pool.currentState
+	PendingNonce uint64   // virtual next nonce in pool.pendingState
+}
+
+// VerifPoolSnapshot is a consistent copy of the pool's bookkeeping.
+type VerifPoolSnapshot struct {
+	Pending       map[common.Address]types.Transactions // nonce-sorted, read from the lists' item maps
+	Queue         map[common.Address]types.Transactions // nonce-sorted
+	All           map[common.Hash]*types.Transaction
+	PricedLen     int
+	PricedStales  int
+	Locals        []common.Address
+	CurrentMaxGas uint64
+	GasPrice      *big.Int
+	Homestead     bool
+	Accounts      map[common.Address]VerifPoolAccount
+}
+
+func verifSortedItems(l *txList) types.Transactions {
+	out := make(types.Transactions, 0, len(l.txs.items))
+	for _, tx := range l.txs.items {
+		out = append(out, tx)
+	}
+	sort.Slice(out, func(i, j int) bool { return out[i].Nonce() < out[j].Nonce() })
+	return out
+}
+
+// VerifSnapshot copies, under the pool's own lock, the pending and queued
+// lists (without touching their sort caches), the lookup index, the size of
+// the price heap, the local accounts, the gas cap and price threshold, and for
+// every named address the nonce and balance of the state the pool currently
+// works against together with the pool's virtual nonce.
+func (pool *TxPool) VerifSnapshot(addrs []common.Address) *VerifPoolSnapshot {
+	pool.mu.Lock()
+	defer pool.mu.Unlock()
+
+	s := &VerifPoolSnapshot{
+		Pending:       make(map[common.Address]types.Transactions, len(pool.pending)),
+		Queue:         make(map[common.Address]types.Transactions, len(pool.queue)),
+		All:           make(map[common.Hash]*types.Transaction, len(pool.all)),
+		PricedLen:     len(*pool.priced.items),
+		PricedStales:  pool.priced.stales,
+		CurrentMaxGas: pool.currentMaxGas,
+		GasPrice:      new(big.Int).Set(pool.gasPrice),
+		Homestead:     pool.homestead,
+		Accounts:      make(map[common.Address]VerifPoolAccount, len(addrs)),
+	}
+	for addr, list := range pool.pending {
+		s.Pending[addr] = verifSortedItems(list)
+	}
+	for addr, list := range pool.queue {
+		s.Queue[addr] = verifSortedItems(list)
+	}
+	for h, tx := range pool.all {
+		s.All[h] = tx
+	}
+	for addr := range pool.locals.accounts {
+		s.Locals = append(s.Locals, addr)
+	}
+	for _, addr := range addrs {
+		s.Accounts[addr] = VerifPoolAccount{
+			StateNonce:   pool.currentState.GetNonce(addr),
+			StateBalance: new(big.Int).Set(pool.currentState.GetBalance(addr)),
+			PendingNonce: pool.pendingState.GetNonce(addr),
+		}
+	}
+	return s
+}
